@@ -3,8 +3,9 @@
 The fuzzer's bytes are decoded into a structured case by the property's Hypothesis strategy
 (`fuzz_one_input`), so the search is over the same domain as the random search; what changes is the
 driver: libFuzzer keeps inputs that reach new branches of the instrumented taurex modules.  The oracle
-is the property's `check(case)` -- the same clauses -- evaluated inside the target.  Only pure-Python
-taurex modules are instrumented (bytecode instrumentation would break numba's compilation).
+is the property's `check(case)` -- the same clauses -- evaluated inside the target.  atheris selects what to
+instrument by top-level package, so every taurex module imported by the campaign is instrumented except the six
+that hold numba kernels (bytecode instrumentation would break their compilation).
 
 Run as a subprocess by the runner (atheris ends the process itself); results go to a JSON file that is
 rewritten every few hundred executions and whenever a new violated clause appears.
@@ -28,7 +29,10 @@ def main(argv):
     for node in ast.parse(src).body:
         if isinstance(node, ast.Assign) and getattr(node.targets[0], 'id', None) == 'FUZZ':
             spec = ast.literal_eval(node.value)
-    with atheris.instrument_imports(include=list(spec['include']), enable_loader_override=False):
+    # modules holding numba-compiled kernels must keep their original bytecode
+    numba_modules = ['taurex.contributions.absorption', 'taurex.contributions.cia', 'taurex.contributions.contribution',
+                     'taurex.model.emission', 'taurex.util.emission', 'taurex.util.math']
+    with atheris.instrument_imports(include=list(spec['include']), exclude=numba_modules, enable_loader_override=False):
         for name in spec['include']:
             importlib.import_module(name)
     mod = importlib.import_module('vlib.props.' + pid.lower())
